@@ -167,7 +167,7 @@ Section Obj.
       + destruct Hraw as [He Hc]. assert (setting' = st /\ hc' = false) as [-> ->].
         { destruct isnow; inversion H; subst; auto. }
         split; [auto|split; [apply (Keep _ El He)|repeat split; auto]].
-    - inversion H; subst. repeat split; auto.
+    - inversion H; subst. split; [auto|]. split; [split; [auto|]|repeat split; auto].
       intros k x Hin. apply Hoth; auto. intros ->. rewrite (alookup_In_nodup _ _ _ ND Hin) in El. discriminate.
   Qed.
 
@@ -195,7 +195,7 @@ Section Obj.
       inversion Ha; subst. clear Ha.
       destruct (clean_present_ok s vrefs st false setting' hc' Hs ND Hothers) as (A & B & C & D & E); auto.
       { fold n. rewrite El. destruct raw; auto. }
-      repeat split; auto; try apply B. intros _. apply E. apply amem_alookup. eauto.
+      split; [|split; [|split; [|split]]]; auto. intros _. apply E. apply amem_alookup. eauto.
     - (* nothing given: the default, if any *)
       assert (Absent : forall k x, In (k, x) setting1 -> k <> n).
       { intros k x Hin ->. rewrite (alookup_In_nodup _ _ _ ND Hin) in El. discriminate. }
@@ -218,7 +218,7 @@ Section Obj.
         all: try (apply keys_aset_nodup; auto; fail).
         all: try (intros k x Hin Hne; eapply Hoth'; eauto; fail).
         all: try (fold n; rewrite alookup_aset_same; exact Hv).
-        - repeat split; auto; try apply B.
+        - split; [|split; [|split; [|split]]]; auto.
           + intros k Hk. apply C. rewrite amem_aset, Hk. apply orb_true_r.
           + intros k Hk. destruct (D k Hk) as [Hk' | Hk']; auto. rewrite amem_aset in Hk'.
             apply orb_true_iff in Hk'. destruct Hk' as [Hk' | Hk']; auto. right. apply ustr_eqb_eq. auto.
@@ -228,12 +228,12 @@ Section Obj.
         inversion Ha; subst. clear Ha.
         destruct (clean_present_ok s vrefs st false setting' hc' Hs ND Hothers) as (A & B & C & D & E); auto.
         { fold n. rewrite El. auto. }
-        all: repeat split; auto; try apply B.
+        all: split; [|split; [|split; [|split]]]; auto.
         all: try (unfold default_present; rewrite Ed; discriminate).
       + (* fixed *)
         destruct (skind s) eqn:Ek; try discriminate. inversion Ha; subst. clear Ha.
         destruct (Put (PJ (JStr v)) false) as (A & B & C & D & E); auto.
-        all: repeat split; auto; try apply B.
+        all: split; [|split; [|split; [|split]]]; auto.
       + (* the clock *)
         destruct (skind s) eqn:Ek; try discriminate.
         destruct (ts_clean_now (vr_year_pad vr) p c0 (e_now ev)) as [r| |] eqn:Et; try discriminate.
@@ -246,16 +246,16 @@ Section Obj.
           assert (p0 = p) by (destruct p, p0; simpl in Hp; auto; discriminate).
           assert (c1 = c0) by (destruct c0, c1; simpl in Hc; auto; discriminate). subst.
           exists 1%nat. simpl. exact Hvt. }
-        all: repeat split; auto; try apply B.
+        all: split; [|split; [|split; [|split]]]; auto.
       + (* uuid4 *)
         destruct (skind s) eqn:Ek; try discriminate. inversion Ha; subst. clear Ha.
         destruct (Put (PJ (JStr (prefix ++ e_uuid4 ev))) false) as (A & B & C & D & E); auto.
-        all: repeat split; auto; try apply B.
+        all: split; [|split; [|split; [|split]]]; auto.
       + (* a constant *)
         inversion Ha; subst. clear Ha.
         destruct (Put (PJ j) false) as (A & B & C & D & E); auto.
         { split; auto. eapply Hdconst; eauto. }
-        all: repeat split; auto; try apply B.
+        all: split; [|split; [|split; [|split]]]; auto.
         all: try (unfold default_present; rewrite Ed; discriminate).
   Qed.
 
